@@ -65,6 +65,8 @@ class TS:
         for name, (start, width) in self.inputs.items():
             if name.endswith("_clk") and width == 1:
                 self.clk_of_net[nir.Net.from_cell(0, start)] = name[:-4]
+            elif name == "clk" and width == 1:       # Amaranth names the default domain's ports clk/rst
+                self.clk_of_net[nir.Net.from_cell(0, start)] = "sync"
         self.domains = sorted(set(self.clk_of_net.values()))
         for i in self.flops + self.srports + [w for l in self.wports.values() for w in l]:
             c = self.cells[i]
